@@ -48,7 +48,7 @@ def barrierSizedByProtocolCount : Bool := true
 def machineSpawnsStartPerProtocol : Bool := true
 def shutdownReceiverCreatedBeforeStart : Bool := true
 /-- run_internet returns the set-once first-request status when one exists -/
-def firstStatusCellUsed : Bool := false
+def firstStatusCellUsed : Bool := true
 def shutdownChannelCapacity : Nat := 16
 def outerTimeoutSlackMs : Nat := 1000
 end Elvis.Gen
